@@ -22,10 +22,20 @@ func (s *Sim) structural(op *Op, t *txn, fn func()) bool {
 	if s.locked() {
 		s.C.Faults["misuse_locked"]++
 		s.C.Checks["lock.blocks"]++
+		// "without effect" includes the structure of the world: no archetype, table or memory appears
+		fp := !s.Flags.DropStats
+		var before [4]int
+		if fp {
+			before = s.structFP()
+		}
 		p, _ := s.call(fn)
 		s.tracef("%d %s locked panic=%v", s.OpIdx, op.K, p)
 		if !p {
 			s.violate("C07", "lock.blocks", op.K, true, "%s succeeded on a world locked by %d open queries", op.K, s.lockDepth)
+		} else if fp {
+			if after := s.structFP(); after != before {
+				s.violate("C07", "lock.blocks", op.K+"/structure", false, "%s was rejected on the locked world, but not without effect: archetypes/tables/memory/component types were %v before and are %v after", op.K, before, after)
+			}
 		}
 		return false
 	}
@@ -48,6 +58,17 @@ func (s *Sim) structural(op *Op, t *txn, fn func()) bool {
 		return false
 	}
 	return true
+}
+
+// structFP summarises the structure of the world as World.Stats reports it:
+// archetypes, tables (active and free), reserved memory, component types.
+func (s *Sim) structFP() [4]int {
+	st := s.W.Stats()
+	fp := [4]int{len(st.Archetypes), 0, st.Memory, len(st.ComponentTypes)}
+	for i := range st.Archetypes {
+		fp[1] += len(st.Archetypes[i].Tables) + st.Archetypes[i].FreeTables
+	}
+	return fp
 }
 
 // commit applies the transaction to the model and checks the events it fired.
